@@ -514,7 +514,7 @@ impl GroupConfig {
                  is at least as large as the replication factor lower bound ({}). \
                  No files would be considered duplicate, regardless of their contents.",
                 self.paths.len(),
-                self.rf_over() + 1,
+                self.rf_over().saturating_add(1),
             ));
         }
         if self.isolate
